@@ -59,7 +59,10 @@ Closure(S, n) ==
   IF n = 0 THEN S
   ELSE LET S2 == S \cup {i \in DOMAIN Nodes : \A j \in DOMAIN Nodes[i].of : Nodes[i].of[j][1] \in S} IN
        IF S2 = S THEN S ELSE Closure(S2, n - 1)
-Grounded == Closure({i \in DOMAIN Nodes : IsBase(i)}, Len(Nodes))
+\* TLC caches constant definitions only when they do not depend on RECURSIVE operators; the tables below are therefore
+\* computed once at start-up and kept in TLC registers (all C02 runs use one worker)
+ASSUME TLCSet(101, Closure({i \in DOMAIN Nodes : IsBase(i)}, Len(Nodes)))
+Grounded == TLCGet(101)
 WellFounded == Grounded = DOMAIN Nodes
 \* no node is defined through itself at the first level either (Closure already implies acyclicity)
 RECURSIVE Rank(_)
@@ -77,7 +80,8 @@ FoldOf(of, j, acc) ==
   ELSE LET f == Flat(of[j][1])
            e == <<of[j][2], of[j][3]>> IN
        FoldOf(of, j + 1, [a |-> VAdd(acc.a, VScale(f.a, e)), g |-> VAdd(acc.g, VScale(f.g, e)), c |-> Max(acc.c, f.c)])
-FlatTab == [i \in DOMAIN Nodes |-> IF i \in Grounded THEN Flat(i) ELSE [a |-> <<>>, g |-> <<>>, c |-> 0]]
+ASSUME TLCSet(102, [i \in DOMAIN Nodes |-> IF i \in Grounded THEN Flat(i) ELSE [a |-> <<>>, g |-> <<>>, c |-> 0]])
+FlatTab == TLCGet(102)
 
 \* uncertainty class of a generator vector (worst class of a generator that survives) and tolerance multiplier
 GenCls(g) == IF g = <<>> THEN 0 ELSE LET cs == {Gens[g[i][1]].cls : i \in DOMAIN g} IN CHOOSE m \in cs : \A c \in cs : c <= m
